@@ -1,7 +1,940 @@
-//! C01 — node-level correspondence harness (stub; see /verif/AGENT_GUIDE.md).
+//! C01 — the tip is the head of the heaviest fully valid chain, for any delivery order.
+//!
+//! Random block trees are materialised as real blocks (`ChainBuilder`) and fed to a real node (three
+//! chain-service threads) in random arrival orders, with duplicates, missing ancestors, and blocks
+//! that are really invalid (non-contextually: corrupted transactions root; contextually: DAO field,
+//! chain-root extension, cellbase reward).
+//!
+//! Protocol (model side: lean/CkbVerif/Driver/C01.lean), one case per tree x arrival order, a fresh
+//! node directory per case; ids: genesis = 0, other blocks in build order (parent id < child id):
+//!   blk <id> <parent> <num> <epoch> <work> <nc> <ok>   -> ok
+//!   deliver <id> <hint>    SERIALISED: delivered through `verif_process_lonely_block_sync`, then the
+//!                          harness waits for quiescence                      -> state line
+//!   burst <id,id,..>       BURST: all deliveries at once from 1-3 threads, then a fence (genesis
+//!                          delivered synchronously), then quiescence           -> td=<n>
+//! state line: cb=<id>:<new|known|err|drop>,.. tip=<id> td=<n> orph=<k> stored=<ids> ext=<id>:<td>,..
+//!             ver=<ids> inv=<ids>
+//! hint = ids whose callbacks fired during the op, in firing order, without the delivered id (the
+//! implementation's arbitrary HashMap sibling order when orphans are released).
+//!
+//! The case label carries what a replay needs besides the op lines: `el=<epoch length>` and
+//! `thr=<threads of a burst>`.
 use crate::common::*;
+use crate::node::*;
+use ckb_chain::{LonelyBlock, VerifyResult};
+use ckb_db_schema::COLUMN_BLOCK_HEADER;
+use ckb_shared::block_status::BlockStatus;
+use ckb_store::ChainStore;
+use ckb_types::core::BlockView;
+use ckb_types::packed::Byte32;
+use ckb_types::prelude::*;
+use ckb_types::U256;
+use std::collections::{HashMap, HashSet};
+use std::path::{Path, PathBuf};
+use std::sync::{Arc, Mutex};
+use std::time::{Duration, Instant};
 
-pub fn run(_opts: &Opts) {
-    eprintln!("C01: harness not implemented");
-    std::process::exit(2);
+const QUIESCENCE_TIMEOUT: Duration = Duration::from_secs(60);
+
+// ------------------------------------------------------------------------------------------------
+// callbacks
+// ------------------------------------------------------------------------------------------------
+
+#[derive(Clone, Copy, PartialEq, Eq, PartialOrd, Ord, Debug)]
+enum Verdict {
+    New,
+    Known,
+    Err,
+    Drop,
+}
+
+impl Verdict {
+    fn as_str(self) -> &'static str {
+        match self {
+            Verdict::New => "new",
+            Verdict::Known => "known",
+            Verdict::Err => "err",
+            Verdict::Drop => "drop",
+        }
+    }
+}
+
+#[derive(Default)]
+struct CbLog {
+    /// (id, verdict) in the order the callbacks fired / were dropped
+    events: Vec<(usize, Verdict)>,
+    fired: usize,
+    dropped: usize,
+}
+
+/// Owned by the callback closure: calling records the verdict, dropping un-called records `drop`.
+struct Guard {
+    id: usize,
+    log: Arc<Mutex<CbLog>>,
+    called: bool,
+}
+
+impl Guard {
+    fn fire(mut self, r: VerifyResult) {
+        self.called = true;
+        let v = match r {
+            Ok(true) => Verdict::New,
+            Ok(false) => Verdict::Known,
+            Err(_) => Verdict::Err,
+        };
+        let mut l = self.log.lock().unwrap();
+        l.events.push((self.id, v));
+        l.fired += 1;
+    }
+}
+
+impl Drop for Guard {
+    fn drop(&mut self) {
+        if !self.called {
+            let mut l = self.log.lock().unwrap();
+            l.events.push((self.id, Verdict::Drop));
+            l.dropped += 1;
+        }
+    }
+}
+
+// ------------------------------------------------------------------------------------------------
+// blocks
+// ------------------------------------------------------------------------------------------------
+
+#[derive(Clone, Copy, PartialEq, Eq, Debug)]
+enum Kind {
+    Valid,
+    /// passes non-contextual verification, fails contextual verification (nc=1 ok=0)
+    Ctx,
+    /// fails non-contextual verification (nc=0)
+    Nc,
+}
+
+impl Kind {
+    fn nc(self) -> bool {
+        self != Kind::Nc
+    }
+    fn ok(self) -> bool {
+        self == Kind::Valid
+    }
+    fn from_flags(nc: bool, ok: bool) -> Kind {
+        if !nc {
+            Kind::Nc
+        } else if !ok {
+            Kind::Ctx
+        } else {
+            Kind::Valid
+        }
+    }
+}
+
+/// The concrete single-rule violation for a block of the given kind: a deterministic function of
+/// (id, number), so that a replay rebuilds the same block. `CellbaseCapacity` only exists above the
+/// finalization delay (earlier cellbases have no output).
+fn tweak_for(kind: Kind, id: usize, number: u64, fdl: u64) -> Tweak {
+    match kind {
+        Kind::Valid => Tweak::None,
+        Kind::Nc => Tweak::TxRoot,
+        Kind::Ctx => {
+            let n = if number > fdl { 3 } else { 2 };
+            match id % n {
+                0 => Tweak::Dao,
+                1 => Tweak::Extension,
+                _ => Tweak::CellbaseCapacity(1),
+            }
+        }
+    }
+}
+
+#[derive(Clone)]
+struct Blk {
+    id: usize,
+    parent: usize,
+    block: Arc<BlockView>,
+    hash: Byte32,
+    num: u64,
+    epoch: u64,
+    work: u128,
+    kind: Kind,
+}
+
+fn u256_dec(x: &U256) -> String {
+    x.to_string()
+}
+
+fn u256_u128(x: &U256) -> u128 {
+    u256_dec(x).parse::<u128>().expect("difficulty fits u128 (dummy PoW, DIFF_TWO)")
+}
+
+fn genesis_blk(consensus: &ckb_chain_spec::consensus::Consensus) -> Blk {
+    let g = consensus.genesis_block().clone();
+    Blk {
+        id: 0,
+        parent: 0,
+        hash: g.hash(),
+        num: g.number(),
+        epoch: g.epoch().number(),
+        work: u256_u128(&g.header().difficulty()),
+        kind: Kind::Valid,
+        block: Arc::new(g),
+    }
+}
+
+fn build_blk(b: &mut ChainBuilder, id: usize, parent: &Blk, kind: Kind) -> Blk {
+    let fdl = b.consensus.finalization_delay_length();
+    let tweak = tweak_for(kind, id, parent.num + 1, fdl);
+    let block = b.build(&parent.hash, &BlockSpec { salt: id as u64, tweak, ..Default::default() });
+    Blk {
+        id,
+        parent: parent.id,
+        hash: block.hash(),
+        num: block.number(),
+        epoch: block.epoch().number(),
+        work: u256_u128(&block.header().difficulty()),
+        kind,
+        block: Arc::new(block),
+    }
+}
+
+fn blk_line(b: &Blk) -> String {
+    // nc=0: `ok` is irrelevant, written as 1
+    let ok = if b.kind == Kind::Nc { true } else { b.kind.ok() };
+    format!("blk {} {} {} {} {} {} {}", b.id, b.parent, b.num, b.epoch, b.work, b.kind.nc() as u8, ok as u8)
+}
+
+// ------------------------------------------------------------------------------------------------
+// one case on a real node
+// ------------------------------------------------------------------------------------------------
+
+struct StateView {
+    tip: Option<usize>,
+    td: u128,
+    orph: usize,
+    stored: Vec<usize>,
+    ext: Vec<(usize, u128)>,
+    ver: Vec<usize>,
+    inv: Vec<usize>,
+}
+
+fn show_ids(v: &[usize]) -> String {
+    if v.is_empty() { "-".into() } else { v.iter().map(|i| i.to_string()).collect::<Vec<_>>().join(",") }
+}
+
+struct CaseRun {
+    node: Option<Node>,
+    dir: PathBuf,
+    blks: Vec<Blk>,
+    by_id: HashMap<usize, usize>,
+    by_hash: HashMap<Byte32, usize>,
+    log: Arc<Mutex<CbLog>>,
+    /// callbacks handed to the node so far
+    handed: usize,
+    delivered: HashSet<usize>,
+    prev: Option<(usize, u128)>,
+    prev_tie: bool,
+    dead: bool,
+    had_reorg: bool,
+    had_tie: bool,
+    arrival: Vec<usize>,
+    threads: usize,
+}
+
+impl CaseRun {
+    fn start(dir: &Path, consensus: &ckb_chain_spec::consensus::Consensus, cfg: &NodeCfg, threads: usize) -> CaseRun {
+        let _ = std::fs::remove_dir_all(dir);
+        let node = Node::start(dir, consensus.clone(), cfg);
+        CaseRun {
+            node: Some(node),
+            dir: dir.to_path_buf(),
+            blks: vec![],
+            by_id: HashMap::new(),
+            by_hash: HashMap::new(),
+            log: Arc::new(Mutex::new(CbLog::default())),
+            handed: 0,
+            delivered: HashSet::new(),
+            prev: None,
+            prev_tie: false,
+            dead: false,
+            had_reorg: false,
+            had_tie: false,
+            arrival: vec![],
+            threads: threads.clamp(1, 3),
+        }
+    }
+
+    fn node(&self) -> &Node {
+        self.node.as_ref().unwrap()
+    }
+
+    fn get(&self, id: usize) -> &Blk {
+        &self.blks[*self.by_id.get(&id).unwrap_or_else(|| panic!("block id {id} not declared"))]
+    }
+
+    fn declare(&mut self, out: &mut Out, b: Blk) {
+        assert!(!self.by_id.contains_key(&b.id), "block id {} declared twice", b.id);
+        if b.id == 0 {
+            assert!(self.blks.is_empty(), "blk 0 must be the first declaration");
+        } else {
+            assert!(self.by_id.contains_key(&0), "blk 0 must be declared first");
+            assert!(b.parent < b.id && self.by_id.contains_key(&b.parent), "blk {}: parent {} must be declared before and be smaller", b.id, b.parent);
+        }
+        out.op(&blk_line(&b), "ok");
+        match b.kind {
+            Kind::Ctx => out.count("blk-invalid-ctx"),
+            Kind::Nc => out.count("blk-invalid-nc"),
+            Kind::Valid => {}
+        }
+        self.by_id.insert(b.id, self.blks.len());
+        self.by_hash.insert(b.hash.clone(), self.blks.len());
+        self.blks.push(b);
+    }
+
+    fn lonely(&mut self, id: usize) -> LonelyBlock {
+        let block = self.get(id).block.clone();
+        self.handed += 1;
+        let g = Guard { id, log: self.log.clone(), called: false };
+        LonelyBlock { block, switch: None, verify_callback: Some(Box::new(move |r: VerifyResult| g.fire(r))) }
+    }
+
+    /// Sound quiescence probe: with the chain-service thread idle (a synchronous request has
+    /// returned), every callback that is neither fired nor dropped is held either by the orphan pool
+    /// (one per pooled hash) or by one of the two queues / the verify thread. So
+    /// `handed - fired - dropped == orphan_blocks_len()` iff the queues are empty and the verify
+    /// thread has finished (callbacks fire after commit, snapshot publication and pending removal).
+    fn wait_quiescent(&self) -> Result<(), String> {
+        let start = Instant::now();
+        let mut step = Duration::from_micros(200);
+        loop {
+            let (fired, dropped) = {
+                let l = self.log.lock().unwrap();
+                (l.fired, l.dropped)
+            };
+            let outstanding = self.handed - fired - dropped;
+            let pool = self.node().controller().orphan_blocks_len();
+            if outstanding == pool {
+                return Ok(());
+            }
+            if start.elapsed() > QUIESCENCE_TIMEOUT {
+                return Err(format!("no quiescence after 60s: handed={} fired={fired} dropped={dropped} orphan_pool={pool}", self.handed));
+            }
+            std::thread::sleep(step);
+            step = (step * 2).min(Duration::from_millis(1));
+        }
+    }
+
+    fn read_state(&self, out: &mut Out) -> StateView {
+        let node = self.node();
+        let snap = node.shared.snapshot();
+        let tip = self.by_hash.get(&snap.tip_hash()).map(|i| self.blks[*i].id);
+        let td = u256_u128(snap.total_difficulty());
+        let mut ids: Vec<usize> = self.blks.iter().map(|b| b.id).collect();
+        ids.sort();
+        let mut v = StateView { tip, td, orph: node.controller().orphan_blocks_len(), stored: vec![], ext: vec![], ver: vec![], inv: vec![] };
+        for id in ids {
+            let b = self.get(id);
+            if node.store().get(COLUMN_BLOCK_HEADER, b.hash.as_slice()).is_some() {
+                v.stored.push(id);
+            }
+            if let Some(ext) = node.store().get_block_ext(&b.hash) {
+                v.ext.push((id, u256_u128(&ext.total_difficulty)));
+                match ext.verified {
+                    Some(true) => v.ver.push(id),
+                    Some(false) => out.oracle_fail("ext-false", &format!("block {id} has a persisted ext with verified == Some(false)")),
+                    None => {}
+                }
+            }
+            if node.shared.get_block_status(&b.hash) == BlockStatus::BLOCK_INVALID {
+                v.inv.push(id);
+            }
+        }
+        v
+    }
+
+    // ---- oracle helpers (on the declared tree and the delivered set only) ----
+
+    fn valid(&self, id: usize) -> bool {
+        let mut b = self.get(id);
+        loop {
+            if b.id == 0 {
+                return true;
+            }
+            if !self.delivered.contains(&b.id) || !b.kind.nc() || !b.kind.ok() {
+                return false;
+            }
+            b = self.get(b.parent);
+        }
+    }
+
+    fn total_work(&self, id: usize) -> u128 {
+        let mut b = self.get(id);
+        let mut s = 0u128;
+        loop {
+            s += b.work;
+            if b.id == 0 {
+                return s;
+            }
+            b = self.get(b.parent);
+        }
+    }
+
+    fn is_ancestor_or_self(&self, a: usize, mut b: usize) -> bool {
+        loop {
+            if a == b {
+                return true;
+            }
+            if b == 0 {
+                return false;
+            }
+            b = self.get(b).parent;
+        }
+    }
+
+    /// delivered and connected to genesis through delivered blocks, validity ignored
+    fn connected(&self, id: usize) -> bool {
+        let mut b = self.get(id);
+        loop {
+            if b.id == 0 {
+                return true;
+            }
+            if !self.delivered.contains(&b.id) {
+                return false;
+            }
+            b = self.get(b.parent);
+        }
+    }
+
+    fn oracle(&mut self, out: &mut Out, v: &StateView, serialised: bool, what: &str) {
+        let valid_ids: Vec<usize> = self.blks.iter().map(|b| b.id).filter(|i| self.valid(*i)).collect();
+        let m = valid_ids.iter().map(|i| self.total_work(*i)).max().unwrap();
+        match v.tip {
+            None => out.oracle_fail("tip-invalid", &format!("{what}: the tip is not a declared block")),
+            Some(tip) => {
+                if !self.valid(tip) {
+                    out.oracle_fail("tip-invalid", &format!("{what}: tip={tip} is not delivered-and-valid with valid ancestors"));
+                }
+                let want = self.total_work(tip);
+                if v.td != want {
+                    out.oracle_fail("td-mismatch", &format!("{what}: tip={tip} snapshot td={} but the work along its path is {want}", v.td));
+                }
+                if valid_ids.iter().any(|i| *i != tip && self.total_work(*i) == m) && v.td == m {
+                    if !self.prev_tie {
+                        out.count("tie-at-tip");
+                    }
+                    self.prev_tie = true;
+                    self.had_tie = true;
+                } else {
+                    self.prev_tie = false;
+                }
+                if let Some((ptip, ptd)) = self.prev {
+                    if v.td < ptd {
+                        out.oracle_fail("td-decreased", &format!("{what}: td {ptd} -> {}", v.td));
+                    }
+                    if ptip != tip {
+                        if serialised && v.td <= ptd {
+                            out.oracle_fail("tip-moved-not-heavier", &format!("{what}: tip {ptip} (td {ptd}) -> {tip} (td {})", v.td));
+                        }
+                        if !self.is_ancestor_or_self(ptip, tip) {
+                            out.count("reorg");
+                            self.had_reorg = true;
+                        }
+                    }
+                }
+                self.prev = Some((tip, v.td));
+            }
+        }
+        if v.td < m {
+            out.oracle_fail("not-maximal", &format!("{what}: quiescent with td={} but a delivered fully valid block has total work {m}", v.td));
+        }
+        for id in &v.ver {
+            if !self.valid(*id) {
+                out.oracle_fail("verified-not-valid", &format!("{what}: block {id} has verified == Some(true) but is not valid"));
+            }
+        }
+        for (id, t) in &v.ext {
+            let want = self.total_work(*id);
+            if *t != want {
+                out.oracle_fail("ext-td-wrong", &format!("{what}: block {id} ext.total_difficulty={t}, work along its path is {want}"));
+            }
+        }
+    }
+
+    fn hang(&mut self, out: &mut Out, op: &str, detail: &str) {
+        out.oracle_fail("hang", &format!("{op}: {detail}"));
+        out.op(op, "hang");
+        self.dead = true;
+    }
+
+    fn deliver(&mut self, out: &mut Out, id: usize) {
+        if self.dead {
+            return;
+        }
+        let parent = self.get(id).parent;
+        out.count("deliver");
+        if self.delivered.contains(&id) {
+            out.count("deliver-dup");
+        }
+        if id != 0 && parent != 0 && !self.delivered.contains(&parent) {
+            out.count("deliver-orphan");
+        }
+        let first = self.log.lock().unwrap().events.len();
+        if self.prev.is_none() {
+            // the history starts at genesis
+            let g = self.get(0).work;
+            self.prev = Some((0, g));
+        }
+        let lb = self.lonely(id);
+        self.arrival.push(id);
+        let alive = self.node().controller().verif_process_lonely_block_sync(lb);
+        if id != 0 {
+            self.delivered.insert(id);
+        }
+        if !alive {
+            return self.hang(out, &format!("deliver {id} -"), "the chain service has gone");
+        }
+        if let Err(e) = self.wait_quiescent() {
+            return self.hang(out, &format!("deliver {id} -"), &e);
+        }
+        let events: Vec<(usize, Verdict)> = self.log.lock().unwrap().events[first..].to_vec();
+        let hint: Vec<usize> = events.iter().filter(|(i, v)| *v != Verdict::Drop && *i != id).map(|(i, _)| *i).collect();
+        let mut cbs = events.clone();
+        cbs.sort();
+        for (_, v) in &cbs {
+            match v {
+                Verdict::Err => out.count("cb-err"),
+                Verdict::Drop => out.count("cb-drop"),
+                _ => {}
+            }
+        }
+        let v = self.read_state(out);
+        let cb = if cbs.is_empty() { "-".to_string() } else { cbs.iter().map(|(i, v)| format!("{}:{}", i, v.as_str())).collect::<Vec<_>>().join(",") };
+        let ext = if v.ext.is_empty() { "-".to_string() } else { v.ext.iter().map(|(i, t)| format!("{i}:{t}")).collect::<Vec<_>>().join(",") };
+        let line = format!(
+            "cb={} tip={} td={} orph={} stored={} ext={} ver={} inv={}",
+            cb,
+            v.tip.map(|t| t.to_string()).unwrap_or("?".into()),
+            v.td,
+            v.orph,
+            show_ids(&v.stored),
+            ext,
+            show_ids(&v.ver),
+            show_ids(&v.inv)
+        );
+        let op = format!("deliver {} {}", id, show_ids(&hint));
+        out.op(&op, &line);
+        self.oracle(out, &v, true, &op);
+    }
+
+    fn burst(&mut self, out: &mut Out, ids: &[usize]) {
+        if self.dead {
+            return;
+        }
+        let op = format!("burst {}", show_ids(ids));
+        out.count("burst");
+        for id in ids {
+            let parent = self.get(*id).parent;
+            out.count("deliver");
+            if self.delivered.contains(id) {
+                out.count("deliver-dup");
+            }
+            if *id != 0 && parent != 0 && !self.delivered.contains(&parent) {
+                out.count("deliver-orphan");
+            }
+            if *id != 0 {
+                self.delivered.insert(*id);
+            }
+            self.arrival.push(*id);
+        }
+        let first = self.log.lock().unwrap().events.len();
+        if self.prev.is_none() {
+            let g = self.get(0).work;
+            self.prev = Some((0, g));
+        }
+        let k = self.threads;
+        let mut chunks: Vec<Vec<LonelyBlock>> = (0..k).map(|_| vec![]).collect();
+        for (i, id) in ids.iter().enumerate() {
+            let lb = self.lonely(*id);
+            chunks[i % k].push(lb);
+        }
+        let controller = self.node().controller().clone();
+        std::thread::scope(|s| {
+            for chunk in chunks {
+                let c = controller.clone();
+                s.spawn(move || {
+                    for lb in chunk {
+                        c.asynchronous_process_lonely_block(lb);
+                    }
+                });
+            }
+        });
+        // fence: the chain-service thread answers the genesis block at once; when this returns it
+        // has handled every earlier request
+        let fence = LonelyBlock { block: self.get(0).block.clone(), switch: None, verify_callback: None };
+        let alive = controller.verif_process_lonely_block_sync(fence);
+        drop(controller);
+        if !alive {
+            return self.hang(out, &op, "the chain service has gone");
+        }
+        if let Err(e) = self.wait_quiescent() {
+            return self.hang(out, &op, &e);
+        }
+        for (_, v) in self.log.lock().unwrap().events[first..].iter() {
+            match v {
+                Verdict::Err => out.count("cb-err"),
+                Verdict::Drop => out.count("cb-drop"),
+                _ => {}
+            }
+        }
+        let v = self.read_state(out);
+        out.op(&op, &format!("td={}", v.td));
+        self.oracle(out, &v, false, &op);
+    }
+
+    /// true when the case is non-trivial by the stated rule
+    fn finish(mut self, out: &mut Out) {
+        // an invalid block inside the otherwise heaviest branch: the heaviest delivered block that is
+        // connected to genesis (validity ignored) is heavier than the heaviest valid one
+        let m_valid = self.blks.iter().filter(|b| self.valid(b.id)).map(|b| self.total_work(b.id)).max().unwrap_or(0);
+        let m_all = self.blks.iter().filter(|b| self.connected(b.id)).map(|b| self.total_work(b.id)).max().unwrap_or(0);
+        let invalid_on_heaviest = m_all > m_valid;
+        if !self.dead && (self.had_reorg || self.had_tie || invalid_on_heaviest) {
+            let mut h = 0xcbf29ce484222325u64;
+            let mut eat = |x: u64| {
+                for b in x.to_le_bytes() {
+                    h ^= b as u64;
+                    h = h.wrapping_mul(0x100000001b3);
+                }
+            };
+            for b in &self.blks {
+                eat(b.parent as u64);
+                eat(b.kind as u64);
+            }
+            eat(u64::MAX);
+            for a in &self.arrival {
+                eat(*a as u64);
+            }
+            out.nontrivial(format!("{:016x}", h));
+        }
+        if let Some(n) = self.node.take() {
+            if self.dead {
+                // a dead pipeline may not join; do not wait for it
+                std::mem::forget(n);
+            } else {
+                n.stop();
+            }
+        }
+        let _ = std::fs::remove_dir_all(&self.dir);
+    }
+}
+
+// ------------------------------------------------------------------------------------------------
+// start-up self-test: every tweak is rejected at the claimed stage
+// ------------------------------------------------------------------------------------------------
+
+fn header_stored(node: &Node, h: &Byte32) -> bool {
+    node.store().get(COLUMN_BLOCK_HEADER, h.as_slice()).is_some()
+}
+
+fn selftest(base: &Path) {
+    assert_eq!(u256_dec(&U256::from(1234u64)), "1234", "U256 Display is not decimal");
+    let cfg = NodeCfg { epoch_len: 4, with_pool: false, ..Default::default() };
+    let consensus = make_consensus(&cfg);
+    let fdl = consensus.finalization_delay_length();
+    let dir = base.join("selftest");
+    let node = Node::start(&dir.join("node"), consensus.clone(), &cfg);
+    let mut b = ChainBuilder::new(consensus.clone(), &dir.join("builder"));
+    let mut chain = vec![consensus.genesis_block().clone()];
+    let height = fdl + 2;
+    for n in 1..=height {
+        let blk = b.build(&chain.last().unwrap().hash(), &BlockSpec { salt: n, ..Default::default() });
+        assert_eq!(node.process(&blk), Ok(true), "selftest: valid block {n} rejected");
+        chain.push(blk);
+    }
+    let tip = chain[height as usize].hash();
+    let below = chain[height as usize - 1].hash();
+    assert!(height > fdl);
+    let mut salt = 1000;
+    for tw in [Tweak::Dao, Tweak::Extension, Tweak::CellbaseCapacity(1)] {
+        salt += 1;
+        // as a sibling of the tip (equal work, not heavier): stored without verification => it passed
+        // the non-contextual stage
+        let side = b.build(&below, &BlockSpec { salt, tweak: tw.clone(), ..Default::default() });
+        let r = node.process(&side);
+        assert_eq!(r, Ok(true), "selftest: {tw:?} block must pass non-contextual verification and be stored as a side block");
+        let ext = node.store().get_block_ext(&side.hash());
+        assert!(header_stored(&node, &side.hash()) && matches!(ext, Some(ref e) if e.verified.is_none()), "selftest: {tw:?} side block must be stored with an unverified ext");
+        assert_eq!(node.tip_hash(), tip);
+        // on top of the tip (heavier): verified contextually and rejected
+        salt += 1;
+        let top = b.build(&tip, &BlockSpec { salt, tweak: tw.clone(), ..Default::default() });
+        let r = node.process(&top);
+        assert!(r.is_err(), "selftest: {tw:?} block on the tip must fail contextual verification, got {r:?}");
+        assert_eq!(node.shared.get_block_status(&top.hash()), BlockStatus::BLOCK_INVALID, "selftest: {tw:?} block must be marked BLOCK_INVALID");
+        assert!(!header_stored(&node, &top.hash()), "selftest: rejected {tw:?} block must be deleted");
+        assert!(node.store().get_block_ext(&top.hash()).is_none(), "selftest: rejected {tw:?} block must have no ext");
+        assert_eq!(node.tip_hash(), tip);
+    }
+    for parent in [&below, &tip] {
+        salt += 1;
+        let bad = b.build(parent, &BlockSpec { salt, tweak: Tweak::TxRoot, ..Default::default() });
+        let r = node.process(&bad);
+        assert!(r.is_err(), "selftest: TxRoot block must fail, got {r:?}");
+        assert_eq!(node.shared.get_block_status(&bad.hash()), BlockStatus::BLOCK_INVALID, "selftest: TxRoot block must be marked BLOCK_INVALID");
+        assert!(!header_stored(&node, &bad.hash()), "selftest: TxRoot block must never be stored (non-contextual rejection)");
+        assert_eq!(node.tip_hash(), tip);
+    }
+    node.stop();
+    drop(b);
+    let _ = std::fs::remove_dir_all(&dir);
+}
+
+// ------------------------------------------------------------------------------------------------
+// generator
+// ------------------------------------------------------------------------------------------------
+
+struct TreeSpec {
+    /// parent[i] for i in 1..=n (parent[0] = 0)
+    parent: Vec<usize>,
+    kind: Vec<Kind>,
+    height: Vec<u64>,
+    withheld: HashSet<usize>,
+}
+
+fn gen_tree(rng: &mut Rng, n: usize) -> TreeSpec {
+    let mut parent = vec![0usize];
+    let mut height = vec![0u64];
+    for id in 1..=n {
+        let r = rng.below(100);
+        let p = if r < 55 {
+            let mh = *height.iter().max().unwrap();
+            let deepest: Vec<usize> = (0..id).filter(|i| height[*i] == mh).collect();
+            *rng.pick(&deepest)
+        } else if r < 80 {
+            let lo = id.saturating_sub(6);
+            rng.range(lo as u64, id as u64 - 1) as usize
+        } else {
+            rng.below(id as u64) as usize
+        };
+        parent.push(p);
+        height.push(height[p] + 1);
+    }
+    let mut kind = vec![Kind::Valid; n + 1];
+    // path of the first deepest leaf
+    let mh = *height.iter().max().unwrap();
+    let leaf = (0..=n).find(|i| height[*i] == mh).unwrap();
+    let mut path = vec![];
+    let mut x = leaf;
+    while x != 0 {
+        path.push(x);
+        x = parent[x];
+    }
+    path.reverse();
+    let tweaks = rng.below(4);
+    for _ in 0..tweaks {
+        let id = if !path.is_empty() && rng.chance(3, 4) {
+            // on the longest branch, biased to its middle
+            if rng.chance(2, 3) && path.len() >= 4 {
+                let lo = path.len() / 4;
+                let hi = path.len() - 1 - path.len() / 4;
+                path[rng.range(lo as u64, hi as u64) as usize]
+            } else {
+                *rng.pick(&path)
+            }
+        } else {
+            rng.range(1, n as u64) as usize
+        };
+        kind[id] = if rng.chance(3, 5) { Kind::Ctx } else { Kind::Nc };
+    }
+    let mut withheld = HashSet::new();
+    if rng.chance(1, 2) {
+        for _ in 0..rng.range(1, 2) {
+            withheld.insert(rng.range(1, n as u64) as usize);
+        }
+    }
+    TreeSpec { parent, kind, height, withheld }
+}
+
+fn gen_order(rng: &mut Rng, t: &TreeSpec) -> Vec<usize> {
+    let n = t.parent.len() - 1;
+    let mut order: Vec<usize> = (1..=n).filter(|i| !t.withheld.contains(i)).collect();
+    if order.is_empty() {
+        order.push(1);
+    }
+    match rng.below(3) {
+        0 => {
+            // mostly in order, a few swaps
+            let swaps = rng.range(0, 2 + order.len() as u64 / 6);
+            for _ in 0..swaps {
+                let i = rng.below(order.len() as u64) as usize;
+                let j = rng.below(order.len() as u64) as usize;
+                order.swap(i, j);
+            }
+        }
+        1 => rng.shuffle(&mut order),
+        _ => {
+            // children first
+            order.reverse();
+            let swaps = rng.range(0, 1 + order.len() as u64 / 8);
+            for _ in 0..swaps {
+                let i = rng.below(order.len() as u64) as usize;
+                let j = rng.below(order.len() as u64) as usize;
+                order.swap(i, j);
+            }
+        }
+    }
+    // duplicates: 10-30% of the deliveries are repeated, mostly later, sometimes anywhere
+    let dups = (order.len() as u64 * rng.range(10, 30)).div_ceil(100);
+    for _ in 0..dups {
+        let i = rng.below(order.len() as u64) as usize;
+        let id = order[i];
+        let pos = if rng.chance(7, 10) { rng.range(i as u64 + 1, order.len() as u64) } else { rng.range(0, order.len() as u64) } as usize;
+        order.insert(pos, id);
+    }
+    order
+}
+
+fn generate(out: &mut Out, opts: &Opts, builder_base: &Path, node_base: &Path) {
+    let mut rng = Rng::new(opts.seed);
+    let (trees, orders) = if opts.thorough() { (250 * opts.scale, 6) } else { (60 * opts.scale, 3) };
+    let t0 = Instant::now();
+    let mut cases = 0u64;
+    for tno in 0..trees {
+        let cfg = NodeCfg { epoch_len: rng.range(3, 6), with_pool: false, ..Default::default() };
+        let consensus = make_consensus(&cfg);
+        let n = if opts.thorough() && rng.chance(1, 4) { rng.range(41, 120) } else { rng.range(8, 40) } as usize;
+        let tree = gen_tree(&mut rng, n);
+        let bdir = builder_base.join(format!("t{tno}"));
+        let mut builder = ChainBuilder::new(consensus.clone(), &bdir);
+        builder.max_branch_stores = 12;
+        let mut blks = vec![genesis_blk(&consensus)];
+        for id in 1..=n {
+            let b = build_blk(&mut builder, id, &blks[tree.parent[id]].clone(), tree.kind[id]);
+            blks.push(b);
+        }
+        drop(builder);
+        let _ = std::fs::remove_dir_all(&bdir);
+        for ono in 0..orders {
+            let order = gen_order(&mut rng, &tree);
+            let burst = rng.chance(3, 10);
+            let threads = rng.range(1, 3) as usize;
+            let label = format!("el={} mode={} thr={} tree={} ord={} n={}", cfg.epoch_len, if burst { "burst" } else { "ser" }, threads, tno, ono, n);
+            let case = out.begin_case(&label);
+            let mut run = CaseRun::start(&node_base.join(format!("c{case}")), &consensus, &cfg, threads);
+            for b in &blks {
+                run.declare(out, b.clone());
+            }
+            if burst {
+                run.burst(out, &order);
+            } else {
+                for id in &order {
+                    run.deliver(out, *id);
+                    if run.dead {
+                        break;
+                    }
+                }
+            }
+            run.finish(out);
+            cases += 1;
+            if cases % 100 == 0 {
+                eprintln!("C01: {} cases, {} trees, {:.1}s", cases, tno + 1, t0.elapsed().as_secs_f64());
+            }
+        }
+    }
+}
+
+// ------------------------------------------------------------------------------------------------
+// replay
+// ------------------------------------------------------------------------------------------------
+
+fn label_num(tokens: &[&str], key: &str, default: u64) -> u64 {
+    tokens.iter().find_map(|t| t.strip_prefix(key).and_then(|v| v.parse::<u64>().ok())).unwrap_or(default)
+}
+
+fn parse_ids(s: &str) -> Vec<usize> {
+    if s == "-" {
+        return vec![];
+    }
+    s.split(',').map(|x| x.parse::<usize>().unwrap_or_else(|_| panic!("bad id list {s}"))).collect()
+}
+
+struct ReplayCase {
+    run: CaseRun,
+    builder: ChainBuilder,
+    bdir: PathBuf,
+}
+
+fn replay(out: &mut Out, ops: &[String], builder_base: &Path, node_base: &Path) {
+    let mut cur: Option<ReplayCase> = None;
+    let mut cno = 0;
+    let finish = |cur: &mut Option<ReplayCase>, out: &mut Out| {
+        if let Some(rc) = cur.take() {
+            rc.run.finish(out);
+            drop(rc.builder);
+            let _ = std::fs::remove_dir_all(&rc.bdir);
+        }
+    };
+    for line in ops {
+        let t: Vec<&str> = line.split_whitespace().collect();
+        match t[0] {
+            "case" => {
+                finish(&mut cur, out);
+                cno += 1;
+                let el = label_num(&t[2..], "el=", 4).clamp(1, 1000);
+                let thr = label_num(&t[2..], "thr=", 2) as usize;
+                let cfg = NodeCfg { epoch_len: el, with_pool: false, ..Default::default() };
+                let consensus = make_consensus(&cfg);
+                out.begin_case(&t[2..].join(" "));
+                let bdir = builder_base.join(format!("r{cno}"));
+                let mut builder = ChainBuilder::new(consensus.clone(), &bdir);
+                builder.max_branch_stores = 12;
+                let run = CaseRun::start(&node_base.join(format!("r{cno}")), &consensus, &cfg, thr);
+                cur = Some(ReplayCase { run, builder, bdir });
+            }
+            "blk" => {
+                let rc = cur.as_mut().expect("blk before case");
+                assert_eq!(t.len(), 8, "bad blk line {line}");
+                let id: usize = t[1].parse().expect("blk id");
+                let parent: usize = t[2].parse().expect("blk parent");
+                let nc = t[6] == "1";
+                let ok = t[7] == "1";
+                let b = if id == 0 {
+                    genesis_blk(&rc.builder.consensus)
+                } else {
+                    assert!(parent < id && rc.run.by_id.contains_key(&parent), "blk {id}: parent {parent} must be declared before and be smaller");
+                    let p = rc.run.get(parent).clone();
+                    build_blk(&mut rc.builder, id, &p, Kind::from_flags(nc, ok))
+                };
+                rc.run.declare(out, b);
+            }
+            "deliver" => {
+                let rc = cur.as_mut().expect("deliver before case");
+                let id: usize = t[1].parse().expect("deliver id");
+                rc.run.deliver(out, id);
+            }
+            "burst" => {
+                let rc = cur.as_mut().expect("burst before case");
+                let ids = parse_ids(t[1]);
+                assert!(!ids.is_empty(), "empty burst");
+                rc.run.burst(out, &ids);
+            }
+            _ => panic!("bad replay op {line}"),
+        }
+    }
+    finish(&mut cur, out);
+}
+
+pub fn run(opts: &Opts) {
+    let mut out = Out::new(&opts.out);
+    let builder_base = scratch_dir(&opts.out, "c01-b");
+    let node_base = scratch_dir(&opts.out, "c01-n");
+    selftest(&node_base);
+    if let Some(p) = &opts.replay {
+        let ops = read_replay_ops(p);
+        replay(&mut out, &ops, &builder_base, &node_base);
+    } else {
+        generate(&mut out, opts, &builder_base, &node_base);
+    }
+    let _ = std::fs::remove_dir_all(&builder_base);
+    let _ = std::fs::remove_dir_all(&node_base);
+    out.finish("case counted when it contains a reorg, an equal-work tie at the maximum, or an invalid block inside the otherwise heaviest branch");
 }
